@@ -926,6 +926,24 @@ class Evaluator:
     _objcount = itertools.count()
 
     def comp(s, e, env, mod, depth, kind):
+        if len(e.generators) > 1 and kind in ('list', 'gen', 'set') and not e.generators[0].is_async:
+            # [f(c, w) for c in CONCRETE for w in g(c)]: the outer generator over a concrete short sequence is unrolled, the rest is the
+            # comprehension of each item
+            g0 = e.generators[0]
+            it0 = _iter_view(s.ev(g0.iter, {'__parent__': env}, mod, depth))
+            if isinstance(it0, (list, tuple)) and len(it0) <= 24:
+                out, ok_ = [], True
+                inner = ast.copy_location(ast.ListComp(elt=e.elt, generators=e.generators[1:]), e)
+                for item in it0:
+                    env3 = {'__parent__': env}
+                    s.assign(g0.target, item, env3, mod, depth)
+                    fl = [s.truth(s.ev(c, env3, mod, depth)) for c in g0.ifs]
+                    if any(f is False for f in fl): continue
+                    if any(f is not True for f in fl): ok_ = False; break
+                    sub = s.ev(inner, env3, mod, depth)
+                    if isinstance(sub, (list, tuple)): out += list(sub)
+                    else: ok_ = False; break
+                if ok_: return out if kind in ('list', 'gen') else Opq('set', *out)
         env2 = {'__parent__': env}
         gens = []
         for g in e.generators:
@@ -1044,7 +1062,18 @@ class Evaluator:
                     if s.prog.is_property(mem[1]):
                         if depth >= s.depth_limit: return Opq('?', 'depth')
                         return s.call_fn(mem[1], mem[0], [v], {}, {'__parent__': None}, depth + 1)
+                    decs_ = s.prog.decorators(mem[1])
+                    if 'staticmethod' in decs_: return Closure(mem[1], {'__parent__': None}, mem[0], attr, None, mem[2])
+                    if 'classmethod' in decs_: return Closure(mem[1], {'__parent__': None}, mem[0], attr, Ref('class', v.clsref[0], v.clsref[1], v.clsref[1].name), mem[2])
                     return Closure(mem[1], {'__parent__': None}, mem[0], attr, v, mem[2])
+                if mem and isinstance(mem[1], (ast.Assign, ast.AnnAssign)) and mem[1].value is not None and depth < s.depth_limit:
+                    # a class attribute read through the instance; an attribute that is a descriptor object answers through its __get__
+                    cv_ = s.ev(mem[1].value, {'__parent__': None}, mem[0], depth + 1)
+                    if isinstance(cv_, Rec) and cv_.clsref:
+                        g_ = s.prog.find_member(cv_.clsref[0], cv_.clsref[1], '__get__')
+                        if g_ and isinstance(g_[1], ast.FunctionDef):
+                            return s.call_fn(g_[1], g_[0], [cv_, v, Ref('class', v.clsref[0], v.clsref[1], v.clsref[1].name)], {}, {'__parent__': None}, depth + 1)
+                    return cv_
             return Poly.atom(('.', tkey(v), attr))
         if isinstance(v, dict):
             if attr in ('keys', 'values', 'items', 'get', 'pop', 'update', 'copy'): return Opq('dictmethod', attr, v)
@@ -1091,6 +1120,7 @@ class Evaluator:
 
     def getitem(s, v, k):
         if isinstance(v, Cond): return Cond(v.g, s.getitem(v.a, k), s.getitem(v.b, k))
+        if isinstance(v, Rec) and isinstance(k, Poly) and k.is_const() and s.namedtuple_items(v) is not None: v = s.namedtuple_items(v)
         if isinstance(v, Opq) and v.k and v.k[0] in ('list', 'tuple') and len(v.k) == 2 and isinstance(v.k[1], Poly) and isinstance(k, Poly) and k.real_const() is not None:
             v = v.k[1]          # a copy of a sequence is indexed like the sequence
         if isinstance(k, Cond): return Cond(k.g, s.getitem(v, k.a), s.getitem(v, k.b))
@@ -1134,6 +1164,8 @@ class Evaluator:
         for a in e.args:
             if isinstance(a, ast.Starred):
                 v = s.ev(a.value, env, mod, depth)
+                nt_ = s.namedtuple_items(v)
+                if nt_ is not None: v = nt_
                 n_ = s.tuple_arity(v) if not isinstance(v, (tuple, list)) else None
                 if isinstance(v, (tuple, list)): args += list(v)
                 elif n_ is not None: args += [s.getitem(v, Poly.const(i_)) for i_ in range(n_)]
@@ -1149,6 +1181,15 @@ class Evaluator:
         if isinstance(f, ast.Attribute):
             return s.call_method(recv, f.attr, args, kw, mod, depth, e)
         return s.apply(fv, args, kw, mod, depth, e)
+
+    def namedtuple_items(s, v):
+        """field values of a typing.NamedTuple record in declaration order (it unpacks, iterates and indexes like that tuple), else None"""
+        if not (isinstance(v, Rec) and v.clsref and isinstance(v.clsref, tuple)): return None
+        m_, c_ = v.clsref[0], v.clsref[1]
+        if not any(ast.unparse(b).split('.')[-1] == 'NamedTuple' for _, cc_ in s.prog.mro(m_, c_) for b in cc_.bases): return None
+        names = [f_[0] for f_ in s.prog.dataclass_fields(m_, c_)]
+        if not all(n_ in v.f for n_ in names): return None
+        return tuple(v.f[n_] for n_ in names)
 
     def tuple_arity(s, v):
         """length of the tuple an uninterpreted call of a package function returns, when every return statement of that function is a tuple
@@ -1185,6 +1226,10 @@ class Evaluator:
             if leaf == 'itemgetter' and args and not kw: return Opq('opget', 'item', *args)
             if leaf == 'attrgetter' and args and not kw and all(isinstance(a_, str) for a_ in args): return Opq('opget', 'attr', *args)
             if leaf == 'methodcaller' and args and isinstance(args[0], str): return Opq('opget', 'method', args[0], tuple(args[1:]), kw)
+            return NotImplemented
+        if nm == 'itertools.chain.from_iterable' and len(args) == 1 and not kw:
+            it_ = _iter_view(args[0])
+            if isinstance(it_, (list, tuple)) and all(isinstance(x_, (list, tuple)) for x_ in it_): return [y_ for x_ in it_ for y_ in x_]
             return NotImplemented
         if root == 'itertools':
             if leaf == 'starmap' and len(args) == 2 and not kw:
@@ -1478,6 +1523,8 @@ class Evaluator:
             if len(rng_) == 1 and all(sum(e_ for at_, e_ in k_ if at_ == rng_[0]) == 1 for k_ in a.t):
                 src_ = Poly.atom(rng_[0]); beta_ = s.elem_of(src_, 0)
                 return Comp(a.subst(lambda at_: beta_ if at_ == rng_[0] else None), [(src_, [])], 'list')
+        if name in ('list', 'tuple') and len(args) == 1 and isinstance(a, Rec) and s.namedtuple_items(a) is not None:
+            a = s.namedtuple_items(a); args = [a]
         if name in ('list', 'tuple') and len(args) == 1:
             if isinstance(a, (list, tuple)): return list(a) if name == 'list' else tuple(a)
             if isinstance(a, dict): return [k.v if isinstance(k, _HK) else k for k in a]
@@ -2409,6 +2456,7 @@ class Evaluator:
         if isinstance(t, ast.Name):
             env[t.id] = val
         elif isinstance(t, (ast.Tuple, ast.List)):
+            if isinstance(val, Rec) and s.namedtuple_items(val) is not None: val = s.namedtuple_items(val)
             if isinstance(val, Cond):
                 for i, x in enumerate(t.elts):
                     s.assign(x, s.getitem(val, Poly.const(i)), env, mod, depth)
